@@ -140,8 +140,8 @@ class C01(Check):
         'dependence on EARLIER CONTENTS OF THE SAME .tdda PATH by the e3-path '
         'layer (history-dependent:path-rewritten:<forms>:<rewrite mode>); '
         'inside an E1 case the rex-off and the rex-on constraints are '
-        'written to the same path one after the other (verify_df gets it as '
-        'str, detect_df as pathlib.Path)',
+        'written to two different paths, each read four times (verify_df '
+        'gets it as str, detect_df as pathlib.Path)',
     ]
 
     # ----------------------------------------------------------- enumeration
@@ -335,7 +335,9 @@ class C01(Check):
             shutil.rmtree(sb, ignore_errors=True)
 
     def reset(self):
-        for p in (self.tddapath, self.outpath):
+        for p in [self.outpath, self.tddapath] + [
+                os.path.join(self.sandbox, 'c_rex%d.tdda' % i)
+                for i in (0, 1)]:
             if os.path.exists(p):
                 os.remove(p)
 
@@ -559,6 +561,10 @@ class C01(Check):
         for rex in rexes:
             sub0 = {'rex': rex}
             self.reset()
+            # one .tdda path per discovery: what a path that is REUSED does
+            # is the subject of the e3-path layer, not of E1
+            self.tddapath = os.path.join(self.sandbox,
+                                         'c_rex%d.tdda' % int(rex))
             c, d = self.discover(R, frame, df, rex, sub0)
             if c is None:
                 outcome.append('X')
